@@ -1,6 +1,6 @@
 from . import expr_container as e
 from .eri_orbenergy import EriOrbenergy
-from .indices import get_symbols, sort_idx_canonical
+from .indices import get_symbols, sort_idx_canonical, split_idx_string
 from .misc import Inputerror
 from .simplify import simplify
 from .sympy_objects import AntiSymmetricTensor, SymmetricTensor
@@ -249,6 +249,9 @@ def exploit_perm_sym(expr: e.Expr, target_indices: str | None = None,
                                  "upper and lower indices if the target tensor"
                                  "has bra-ket-symmetry.")
             upper, lower = target_indices, ""
+        # split the index strings: an index name might consist of more than
+        # one character (e.g. 'i2')
+        upper, lower = split_idx_string(upper), split_idx_string(lower)
         # treat the spin
         if target_spin is not None:
             if "," in target_spin:
